@@ -1424,6 +1424,93 @@ def run_rf_general(case, ctx):
 def enum_large_sets(tier, seed):
     for k in ([30000, 70000] if tier == "quick" else [21845, 21846, 30000, 46341, 65536, 70000, 140000]):
         yield dict(k=k)
+    # four sample sets of more than 2^16 nodes each (products of four set sizes pass 2^64)
+    for m in ([65536, 65537] if tier == "quick" else [46341, 65535, 65536, 65537, 70000, 100000]):
+        yield dict(four=m)
+    # a million samples: allele frequencies of 1e-6
+    for k in ([1000001] if tier == "quick" else [999999, 1000001, 2000003]):
+        yield dict(traits=k)
+
+
+def run_four_clades(case, ctx):
+    """Root above P (all of A and C) and Q (all of B and D), every set m leaves; sites with a mutation above P, above
+    one leaf of A and above Q.  Expected values from the printed summary functions applied to the allele / branch
+    count vectors written down by hand."""
+    import tskit
+
+    m = case["four"]
+    k = 4 * m
+    P, Q, R = k, k + 1, k + 2
+    t = tskit.TableCollection(1.0)
+    flags = np.ones(k + 3, dtype=np.uint32)
+    flags[k:] = 0
+    time = np.zeros(k + 3)
+    time[P] = time[Q] = 1.0
+    time[R] = 2.0
+    t.nodes.set_columns(flags=flags, time=time)
+    child = np.arange(k, dtype=np.int32)
+    parent = np.where((child // m) % 2 == 0, P, Q).astype(np.int32)  # blocks: A, B, C, D -> A, C under P
+    order = np.argsort(parent, kind="stable")
+    t.edges.set_columns(left=np.zeros(k), right=np.ones(k), parent=parent[order], child=child[order])
+    t.edges.add_row(0, 1, R, P)
+    t.edges.add_row(0, 1, R, Q)
+    for j, node in enumerate((P, 0, Q)):
+        t.sites.add_row((j + 1) / 8, "A")
+        t.mutations.add_row(j, node, "T")
+    ts = t.tree_sequence()
+    sets = [np.arange(b * m, (b + 1) * m, dtype=np.int32) for b in range(4)]  # A, B, C, D
+    n = np.array([m] * 4, dtype=float)
+    xP, xQ = np.array([m, 0, m, 0.0]), np.array([0, m, 0, float(m)])
+    leaf = [np.eye(4)[b] for b in range(4)]
+    site_alleles = [[xP, n - xP], [leaf[0], n - leaf[0]], [xQ, n - xQ]]
+    ctx.nt(True)
+    ctx.label("four_clades")
+    todo = [("diversity", None), ("Y1", None), ("segregating_sites", None),
+            ("divergence", [(0, 1), (0, 2), (3, 0)]), ("Y2", [(0, 1), (2, 0)]), ("f2", [(0, 1), (0, 2), (1, 3)]),
+            ("Y3", [(0, 1, 3), (1, 0, 2)]), ("f3", [(0, 1, 3), (0, 2, 1), (3, 0, 2)]),
+            ("f4", [(0, 1, 2, 3), (0, 2, 1, 3), (3, 2, 1, 0)])]
+    for name, idx in todo:
+        f, dim, _ = O.summary_function(name, n, idx)
+        site = sum(f(x) for alleles in site_alleles for x in alleles)
+        branch = sum(m * (f(leaf[b]) + f(n - leaf[b])) for b in range(4)) + f(xP) + f(n - xP) + f(xQ) + f(n - xQ)
+        kw = {} if idx is None else dict(indexes=idx)
+        ctx.close(getattr(ts, name)(sets, mode="site", **kw), site, f"{name} site (four clades of {m})", rtol=1e-9)
+        ctx.close(getattr(ts, name)(sets, mode="branch", **kw), branch, f"{name} branch (four clades of {m})", rtol=1e-9)
+
+
+def run_million(case, ctx):
+    """Star tree with a million samples, singleton sites: trait_correlation / trait_covariance in closed form."""
+    import tskit
+
+    k = case["traits"]
+    t = tskit.TableCollection(1.0)
+    flags = np.ones(k + 1, dtype=np.uint32)
+    flags[k] = 0
+    time = np.zeros(k + 1)
+    time[k] = 1.0
+    t.nodes.set_columns(flags=flags, time=time)
+    t.edges.set_columns(left=np.zeros(k), right=np.ones(k), parent=np.full(k, k, dtype=np.int32),
+                        child=np.arange(k, dtype=np.int32))
+    carriers = [0, 12345, k - 1]
+    for j, u in enumerate(carriers):
+        t.sites.add_row((j + 1) / 8, "A")
+        t.mutations.add_row(j, u, "T")
+    ts = t.tree_sequence()
+    ctx.nt(True)
+    ctx.label("million_samples")
+    W = ((np.arange(k) * 7) % 13).astype(float).reshape(k, 1)
+    Wn = (W - W.mean()) / np.std(W, ddof=1)
+    n = float(k)
+    # each singleton site: both alleles give Wn_j^2 / (2 (1 - 1/n) (n - 1))
+    site = sum(float(Wn[u, 0]) ** 2 for u in carriers) * n / (n - 1) ** 2
+    ctx.close(ts.trait_correlation(W, mode="site"), [site], "trait_correlation site (star)", rtol=1e-4, atol=0)
+    # branch: every leaf branch has length 1: sum_j Wn_j^2 n / (n-1)^2 = n / (n - 1)
+    ctx.close(ts.trait_correlation(W, mode="branch"), [n / (n - 1)], "trait_correlation branch (star)", rtol=1e-4,
+              atol=0)
+    Wc = W - W.mean()
+    cov_site = sum(float(Wc[u, 0]) ** 2 for u in carriers) * 2 / (2 * (n - 1) ** 2)
+    ctx.close(ts.trait_covariance(W, mode="site"), [cov_site], "trait_covariance site (star)", rtol=1e-6, atol=0)
+    ctx.close(ts.diversity(mode="site"), 3 * 2.0 / n, "diversity (star)", rtol=1e-9, atol=0)
 
 
 def run_large_sets(case, ctx):
@@ -1432,6 +1519,10 @@ def run_large_sets(case, ctx):
     import numpy as np
     import tskit
 
+    if "four" in case:
+        return run_four_clades(case, ctx)
+    if "traits" in case:
+        return run_million(case, ctx)
     k = case["k"]
     t = tskit.TableCollection(1.0)
     flags = np.ones(k + 1, dtype=np.uint32)
